@@ -37,22 +37,37 @@ type TableHeader struct {
 }
 
 func PointerField(psi []byte) uint8 {
+	if len(psi) == 0 {
+		return 0
+	}
 	return psi[0]
 }
 
 // TableID returns the psi table header table id
 func TableID(psi []byte) uint8 {
-	return tableID(psi[1+int(PointerField(psi)):])
+	offset := 1 + int(PointerField(psi))
+	if offset >= len(psi) {
+		return 0
+	}
+	return tableID(psi[offset:])
 }
 
 // SectionSyntaxIndicator returns true if the psi contains section syntax
 func SectionSyntaxIndicator(psi []byte) bool {
-	return sectionSyntaxIndicator(psi[1+int(PointerField(psi)):])
+	offset := 1 + int(PointerField(psi))
+	if offset >= len(psi) {
+		return false
+	}
+	return sectionSyntaxIndicator(psi[offset:])
 }
 
 // PrivateIndicator returns true if the psi contains private data
 func PrivateIndicator(psi []byte) bool {
-	return psi[2+int(PointerField(psi))]&0x40 != 0
+	offset := 2 + int(PointerField(psi))
+	if offset >= len(psi) {
+		return false
+	}
+	return psi[offset]&0x40 != 0
 }
 
 // SectionLength returns the psi section length
@@ -66,6 +81,9 @@ func SectionLength(psi []byte) uint16 {
 
 // tableID returns the table id from the header of a section
 func tableID(psi []byte) uint8 {
+	if len(psi) < 1 {
+		return 0
+	}
 	return uint8(psi[0])
 }
 
@@ -81,11 +99,17 @@ func tableVersionAndCNI(psi []byte) (uint8, bool, error) {
 }
 
 func sectionSyntaxIndicator(psi []byte) bool {
+	if len(psi) < 2 {
+		return false
+	}
 	return psi[1]&0x80 != 0
 }
 
 // sectionLength returns the length of a single psi section
 func sectionLength(psi []byte) uint16 {
+	if len(psi) < 3 {
+		return 0
+	}
 	return uint16(psi[1]&3)<<8 | uint16(psi[2])
 }
 
